@@ -551,7 +551,7 @@ class Emitter:
         if kind == 'local': return s.lname(val)
         if kind == 'global':
             if val in s.mod.funcs or val in s.mod.decls:
-                return '((uint8_t*)%s)' % cid(val)
+                return '((uint8_t*)%s)' % s.fname(val)
             s.note_global(val)
             return '((uint8_t*)&%s)' % ('g_' + cid(val))
         if kind == 'int': return '((%s)%s)' % (s.cty(ty), s.intlit(val, r))
@@ -581,6 +581,12 @@ class Emitter:
 
     def lname(s, n):
         return 'v_' + cid(n)
+
+    def fname(s, name):
+        nm = name[1:].strip('"') if name[0] == '@' else name
+        if name in s.mod.decls and name not in s.mod.funcs and nm not in PRELUDE_DEFINED and nm not in HARNESS_API:
+            return 'ext_' + cid(name)
+        return cid(name)
 
     def is_mutable_global(s, name):
         g = s.mod.globals.get(name)
@@ -674,7 +680,7 @@ class Emitter:
     def proto(s, f, name=None):
         ps = ', '.join('%s %s' % (s.cty(t), s.lname(n)) for t, n, a in f.params) or 'void'
         if f.vararg: ps += ', ...'
-        return '%s %s(%s)' % (s.cty(f.ret), name or cid(f.name), ps)
+        return '%s %s(%s)' % (s.cty(f.ret), name or s.fname(f.name), ps)
 
     def emit_function(s, f):
         o = []
@@ -1151,7 +1157,7 @@ class Emitter:
             if nm == 'verif_observe':
                 o.append('  VERIF_OBSERVE(%s);' % s.val(args[0])); return
             av = ', '.join(s.val(a) for a in args)
-            call = '%s(%s)' % (cid(name), av)
+            call = '%s(%s)' % (s.fname(name), av)
             if s.uf_float and nm in ('sqrtf', 'sqrt', 'log2', 'log2f', 'logf', 'log', 'expf', 'exp', 'exp2f', 'exp2'):
                 call = 'VERIF_FUF1(%s, %s)' % (nm, av)
         else:
@@ -1325,7 +1331,7 @@ class Emitter:
         out.extend(stubtxt)
         out.extend(fbodies)
         out.append('/*BODY-END*/')
-        s.emitted_names = sorted(set([cid(n) for n in keep_funcs] + [cid(f.name) for f in nobody] +
+        s.emitted_names = sorted(set([cid(n) for n in keep_funcs] + [s.fname(f.name) for f in nobody] +
                                      ['g_' + cid(x[1]) for x in gl if x[0] == 'def'] +
                                      [v.split()[1] for v in s.aggtypes.values()]))
         out.append('void verif_entry(void) { %s(); }' % cid(entry))
